@@ -409,6 +409,9 @@ func redactPipelineStage(stage interface{}, redactFieldNames bool, keyPath []str
 									newPipeline[i] = redactPipelineStage(stage, redactFieldNames, []string{}, isInSearchStage(stage))
 								}
 								newPipelineMap.Set(subK, newPipeline)
+							} else {
+								// not a pipeline: keep the member (redacted like any array item) instead of dropping it
+								newPipelineMap.Set(subK, redactArrayValues([]any{subV}, redactFieldNames, inSearchStage, false, newKeyPath)[0])
 							}
 						}
 						newMap.Set(redactedKey, newPipelineMap)
